@@ -139,8 +139,19 @@ class JValueGen(ValueGen):
         if m < 0.25:
             return bytes(r.choice(b"abcXYZ019 _") for _ in range(l))
         if m < 0.45:   # characters the escaper treats specially
-            alpha = ['"', "\\", "\n", "\r", "\t", "\x00", "\x1f", "<", ">", "&", "\u2028", "\u2029", "\x7f", "/", "a", "\u00e9", "\u20ac", "\U0001f600", "\ufffd"]
+            alpha = ['"', "\\", "\n", "\r", "\t", "\x00", "\x1f", "<", ">", "&", "\u2028", "\u2029", "\x7f", "/", "a", "\u00e9", "\u20ac", "\U0001f600", "\ufffd",
+                     # neighbours of U+2028/9 and the U+206x format characters (boundaries of the \\u202X escape branch)
+                     "\u2026", "\u2027", "\u202a", "\u202e", "\u202f", "\u2030", "\u205f", "\u2060", "\u2065", "\u2066", "\u2067", "\u2068", "\u2069", "\u206a", "\u206f", "\u2070", "\u2020", "\u2128", "\u2228"]
             return "".join(r.choice(alpha) for _ in range(l)).encode("utf-8")
+        if m < 0.55:   # for each escape branch of JSONWriteString, every code point in a window around its boundaries
+            windows = [range(0x2020, 0x2071),                      # U+2028/9 (the \\u202X branch) and the U+206x format characters
+                       range(0x2020, 0x2071),
+                       range(0x00, 0x31),                          # controls, space, ", &
+                       range(0x3a, 0x41), range(0x5a, 0x5f),        # < > and the backslash
+                       range(0x7d, 0x83),                          # DEL / RuneSelf
+                       [0xd7fe, 0xd7ff, 0xe000, 0xe001, 0xfffb, 0xfffc, 0xfffd, 0xfffe, 0xffff, 0x10000, 0x10fffe, 0x10ffff]]
+            pool = list(r.choice(windows))
+            return "".join(chr(r.choice(pool)) for _ in range(max(1, l))).encode("utf-8")
         if m < 0.65:   # valid UTF-8 of all lengths
             cps = [r.choice([r.randrange(0x20, 0x7f), r.randrange(0x80, 0x800), r.randrange(0x800, 0xd800), r.randrange(0xe000, 0x10000), r.randrange(0x10000, 0x110000)]) for _ in range(l)]
             return "".join(chr(c) for c in cps).encode("utf-8")
